@@ -495,6 +495,8 @@ class Machine:
                 return ('lit', bytes(op['bytes']))
             if op['ty'] == '()':
                 return UNIT
+            if op.get('fn'):
+                return ('fnitem', op['fn']['path'])
             return ('constref', op['text'])
         raise Unsupported(op['k'])
 
@@ -660,6 +662,28 @@ class Machine:
         base = name.rsplit('::', 1)[-1]
         clo = next((a for a in args[1:] if isinstance(a, tuple) and a and a[0] == 'closure'), None)
         a0 = args[0]
+        fni = next((a for a in args[1:] if isinstance(a, tuple) and a and a[0] == 'fnitem'), None)
+        if clo is None and fni is not None and name.endswith('Option::<T>::map') and isinstance(a0, tuple) and a0 and a0[0] == 'adt' and a0[1] == 'Option':
+            # map with a function item (`.map(SegmentImpl::as_bytes)`): the function is applied through its summary
+            if a0[2] == 0:
+                l2 = list(frames[-1][3])
+                l2[t['dest']['local']] = NONE
+                return [self.set_top(st, l2, t['target'], 0)]
+            if fni[1] in self.bodies and self.inline(fni[1]):
+                cb = self.bodies[fni[1]]
+                nl = [None] * len(cb['locals'])
+                nl[1] = a0[3][0]
+                return [(frames + ((fni[1], 0, 0, tuple(nl), t['dest']['local'], t['target'], ('some',)),),) + st[1:]]
+            out = []
+            for item in self.summary(st, list(frames[-1][3]), fni[1], [a0[3][0]], t):
+                if isinstance(item, Retry):
+                    out.append(item)
+                    continue
+                v, st2 = item
+                l2 = list(st2[0][-1][3])
+                l2[t['dest']['local']] = some(v)
+                out.append(self.set_top(st2, l2, t['target'], 0))
+            return out
 
         def set_dest(val):
             l2 = list(frames[-1][3])
@@ -741,6 +765,9 @@ class Machine:
             if rv.get('mut') and not pl['proj']:
                 return [(('ref', pl['local']), st)]
             return [(self.place_get(st, locs, pl), st)]
+        if k == 'rawptr':
+            # `&raw const *slice` (taken by the compiler to read the length of a matched slice): the value itself, like a shared reference
+            return [(self.place_get(st, locs, rv['place']), st)]
         if k == 'discr':
             v = self.place_get(st, locs, rv['place'])
             if v[0] != 'adt':
